@@ -398,6 +398,11 @@ def run(chk):
         srcs.append('<template name="%s">[T]</template><template is="%s"/><v wx:for="{{l}}" wx:key="%s">{{item}}</v><c generic:g="%s" slot:s="%s"/>' % (v_, v_, v_, v_, "s1"))
         srcs.append('<block wx:for="{{l}}" wx:for-item="it" wx:key="%s"><v worklet:w="%s" extra-attr:e="%s">{{it}}</v></block>' % (v_, v_, v_))
         nshape += 2
+    # `src` values whose name itself ends with the optional suffix the parser strips (D74: printed without it, the next parse strips again: another file)
+    for t_ in ['<include src="a.wxml.wxml"/>x', '<import src="b.wxml.wxml"/>x', '<wxs module="m" src="c.wxs.wxs"/>{{m.f}}', '<include src="d.wxml.wxml.wxml"/><include src="e.wxs"/>',
+               '<block wx:if="{{c}}"><include src="../f.wxml.wxml"/></block><wxs module="n" src="g.wxml"/>']:
+        srcs.append(t_)
+        nshape += 1
     # text mixtures as text nodes and attribute values (the oracle side of the mixture model: fixpoint, diagnostics, behaviour)
     msrcs_, mwf = mix_sources(rng.fork("mix-oracle"), 300 if quick else 6000, mix_canon() or ["a"])
     for s_, wf in zip(msrcs_, mwf):
